@@ -37,7 +37,7 @@ man = {
     "setup_cmd": "bin/setup",
     "hooks": {
         "guard": "verif",
-        "enable": "no source hooks: instrumentation is applied to overlay copies at build time (go test -tags verif -overlay <generated>), /repo stays byte-identical",
+        "enable": "no source hooks: instrumentation (sync/atomic shims, channel points, constant overrides) is applied to overlay copies of the current /repo sources at build time (go test -tags verif -overlay <generated>); the harness and engine files added by the overlay carry //go:build verif; /repo itself only carries fix: commits",
         "baseline_off_cmd": cfg.get("baseline_off_cmd", "cd /repo && go test -mod=mod -vet=off -count=1 -timeout 25m ./..."),
         "source_commits": cfg.get("hook_commits", []),
         "add_only": True,
